@@ -20,6 +20,12 @@ func init() {
 		Assumptions: []string{"each transfer rule states a fact that holds on normal completion of the instruction (not decided here)"},
 		Run:         runC15,
 		Mutants: []Mutant{
+			{Name: "phis-updated-one-after-the-other", File: "analysis/facts/nilness/nilness.go", Rule: "R15.6", KeyPart: "phis-evaluated-in-parallel",
+				Old: "\t\t\tif instr, ok := instr.(*ir.Phi); ok {\n\t\t\t\tincoming = append(incoming, s.get(instr.Edges[i]))\n\t\t\t} else {\n\t\t\t\tbreak\n\t\t\t}\n", New: "\t\t\tif instr, ok := instr.(*ir.Phi); ok {\n\t\t\t\tincoming = append(incoming, s.get(instr.Edges[i]))\n\t\t\t\ts.set(instr, incoming[len(incoming)-1])\n\t\t\t} else {\n\t\t\t\tbreak\n\t\t\t}\n"},
+			{Name: "dense-slot-returned-without-looking-at-it", File: "analysis/facts/nilness/nilness.go", Rule: "R15.7", KeyPart: "state).get::recorded-value-returned-only-if-something-was-recorded",
+				Old: "\tif num < len(s.m) && s.m[num] != (ValueNilness{}) {\n", New: "\tif num < len(s.m) {\n"},
+			{Name: "conversion-copies-from-any-operand", File: "analysis/facts/nilness/nilness.go", Rule: "R15.8", KeyPart: "conversion-copies-nilness-only-from-pointer-like-operands",
+				Old: "\t\t\t\tif typeutil.IsPointerLike(v.X.Type()) {\n\t\t\t\t\ts.set(v, s.get(v.X))\n\t\t\t\t} else {\n\t\t\t\t\t// unsafe.Pointer(uintptr)", New: "\t\t\t\tif true || typeutil.IsPointerLike(v.X.Type()) {\n\t\t\t\t\ts.set(v, s.get(v.X))\n\t\t\t\t} else {\n\t\t\t\t\t// unsafe.Pointer(uintptr)"},
 			{Name: "worklist-keeps-queued-bit-during-visit", File: "analysis/dfa/dense/forward.go", Rule: "R15.5", KeyPart: "dequeue-clears-membership-bit",
 				Old: "\theap.Pop(h)\n\th.inQueue[nid/64] &^= 1 << (nid % 64)\n", New: "\theap.Pop(h)\n"},
 			{Name: "cow-clone-skipped-when-growing", File: "analysis/facts/nilness/nilness.go", Rule: "R15.4", KeyPart: "state).set::",
@@ -563,6 +569,148 @@ func runC15(c *Ctx) {
 	c.Rule("R15.5", func() {
 		c.Floor("R15.5", 7)
 		denseSolverObligations(c)
+	})
+
+	// R15.6: the φ-nodes of a block are evaluated in parallel. An incoming value
+	// may itself be a φ of the same block (a, b = b, a in a loop); if the
+	// transfer reads it after it has already updated that φ on this edge, the
+	// second φ never sees the first one's old state and keeps its entry fact
+	// for ever (NeverNil for a variable that is nil after one swap).
+	c.Rule("R15.6", func() {
+		c.Floor("R15.6", 1)
+		impl := c.Func("analysis/facts/nilness", "impl")
+		n := 0
+		for _, f := range append([]*ssa.Function{impl}, impl.AnonFuncs...) {
+			var gets, sets []ssa.Instruction
+			for _, ci := range Calls(f, false) {
+				name := CalleeName(ci.Common())
+				args := ci.Common().Args
+				switch {
+				case strings.HasSuffix(name, "nilness.state.get") && len(args) == 2 && Derives(args[1], IsFieldOf("ir.Phi", "Edges")):
+					gets = append(gets, ci)
+				case (strings.HasSuffix(name, "nilness.state.set") || strings.HasSuffix(name, "nilness.state.setOuter") || strings.HasSuffix(name, "nilness.state.setInner")) && len(args) >= 2 && strings.HasSuffix(args[1].Type().String(), "ir.Phi"):
+					sets = append(sets, ci)
+				case (strings.HasSuffix(name, "nilness.state.set")) && len(args) >= 2 && Derives(args[1], func(v ssa.Value) bool {
+					ta, ok := v.(*ssa.TypeAssert)
+					return ok && strings.HasSuffix(ta.AssertedType.String(), "ir.Phi")
+				}):
+					sets = append(sets, ci)
+				}
+			}
+			if len(gets) == 0 || len(sets) == 0 {
+				continue
+			}
+			n++
+			bad := ""
+			for _, st := range sets {
+				for _, g := range gets {
+					if ReachesFrom(f, st, g) {
+						bad = "a φ is updated and an incoming value of (possibly another) φ of the block is read afterwards"
+					}
+				}
+			}
+			c.Check(FuncKey(f)+"::phis-evaluated-in-parallel", f.Pos(), bad == "", "all incoming values of a block's φ-nodes are read before any of the φ-nodes is updated: %s", bad)
+		}
+		if n == 0 {
+			c.Undecided("no function of nilness.impl evaluates φ-nodes from their Edges")
+		}
+	})
+	// R15.7: "nothing recorded" is decided by the recorded value, not by the
+	// length of the dense state: a slot exists as soon as any higher-numbered
+	// value has been recorded, and holds the lattice identity until then. The
+	// per-kind defaults (functions, globals and builtins are never nil,
+	// parameters may be) must apply in that case too, otherwise a φ of a
+	// function value and nil merges to AlwaysNil.
+	c.Rule("R15.7", func() {
+		c.Floor("R15.7", 1)
+		get := c.Func("analysis/facts/nilness", "(*state).get")
+		isSlot := func(v ssa.Value) bool {
+			u, ok := v.(*ssa.UnOp)
+			if !ok || u.Op != token.MUL {
+				return false
+			}
+			ia, ok := u.X.(*ssa.IndexAddr)
+			return ok && AddrFrom(ia.X, IsFieldOf("nilness.state", "m"))
+		}
+		recorded := ComplementEdges(EqEdges(get, func(x, y ssa.Value) bool {
+			_, isConst := y.(*ssa.Const)
+			return isConst && DerivesLocal(x, isSlot)
+		}))
+		n := 0
+		for _, r := range Returns(get) {
+			v := ReturnOperand(r, 0)
+			if !DerivesLocal(v, isSlot) {
+				continue
+			}
+			n++
+			ok, path := MustPassEdges(get, r, recorded)
+			c.Check(FuncKey(get)+"::recorded-value-returned-only-if-something-was-recorded#"+itoa(n), r.Pos(), ok && len(recorded) > 0, "get may return the slot of the dense state only after testing that it is not the identity (a slot exists whenever a higher-numbered value was recorded); otherwise the per-kind defaults are skipped; path: %s", PathString(get, path))
+		}
+		if n == 0 {
+			c.Undecided("(*state).get no longer returns an element of the dense state")
+		}
+	})
+	// R15.8: a conversion copies the operand's nilness only if the operand can
+	// be nil at all. For unsafe.Pointer(uintptr) (and []byte(string)) the
+	// operand is not pointer-like; its "state" is the NeverNil that get returns
+	// for every non-pointer, which says nothing about the result.
+	c.Rule("R15.8", func() {
+		c.Floor("R15.8", 1)
+		impl := c.Func("analysis/facts/nilness", "impl")
+		n := 0
+		for _, f := range append([]*ssa.Function{impl}, impl.AnonFuncs...) {
+			Instrs(f, false, func(in ssa.Instruction) {
+				ta, ok := in.(*ssa.TypeAssert)
+				if !ok || !ta.CommaOk || !strings.HasSuffix(ta.AssertedType.String(), "go/ir.Convert") {
+					return
+				}
+				var tv ssa.Value
+				if refs := ta.Referrers(); refs != nil {
+					for _, r := range *refs {
+						if ex, ok := r.(*ssa.Extract); ok && ex.Index == 0 {
+							tv = ex
+						}
+					}
+				}
+				if tv == nil {
+					return
+				}
+				isOperand := func(v ssa.Value) bool {
+					u, ok := v.(*ssa.UnOp)
+					if !ok || u.Op != token.MUL {
+						return false
+					}
+					fa, ok := u.X.(*ssa.FieldAddr)
+					return ok && IsFieldOf("ir.Convert", "X")(fa) && Derives(fa.X, func(x ssa.Value) bool { return x == tv })
+				}
+				ptrLike := CallTrueEdges(f, func(call *ssa.Call) bool {
+					return strings.HasSuffix(CalleeName(&call.Call), "typeutil.IsPointerLike") && Derives(call.Call.Args[0], isOperand)
+				})
+				for _, ci := range Calls(f, false) {
+					if !strings.HasSuffix(CalleeName(ci.Common()), "nilness.state.set") {
+						continue
+					}
+					args := ci.Common().Args
+					if len(args) < 3 || !Derives(args[1], func(x ssa.Value) bool { return x == tv }) {
+						continue
+					}
+					// the value set derives from get(operand)
+					copies := Derives(args[2], func(x ssa.Value) bool {
+						call, ok := x.(*ssa.Call)
+						return ok && strings.HasSuffix(CalleeName(&call.Call), "nilness.state.get") && len(call.Call.Args) == 2 && Derives(call.Call.Args[1], isOperand)
+					})
+					if !copies {
+						continue
+					}
+					n++
+					ok, path := MustPassEdges(f, ci, ptrLike)
+					c.Check(FuncKey(f)+"::conversion-copies-nilness-only-from-pointer-like-operands#"+itoa(n), ci.Pos(), ok && len(ptrLike) > 0, "the state of a Convert's operand is copied to its result only under IsPointerLike(operand type): for unsafe.Pointer(uintptr) the operand's NeverNil is an artefact of not being a pointer; path: %s", PathString(f, path))
+				}
+			})
+		}
+		if n == 0 {
+			c.Undecided("nilness no longer copies the operand's state for *ir.Convert")
+		}
 	})
 
 	c.Rule("R15.4", func() {
